@@ -403,6 +403,15 @@ func TypeIdentifierName(name string) string {
 	return fmt.Sprintf("%s_Type", name)
 }
 
+// The enumerator of `enum class Version` for a version label of the package
+func VersionIdentifierName(label string) string {
+	if _, reserved := reservedNames[label]; !reserved && label != "Current" {
+		return label
+	}
+
+	return fmt.Sprintf("%s_version", label)
+}
+
 func AbstractWriterName(p *dsl.ProtocolDefinition) string {
 	return fmt.Sprintf("%sWriterBase", p.Name)
 }
